@@ -257,8 +257,10 @@ impl MemStateMachine {
 impl RaftSnapshotBuilder<AppTypeConfig> for Arc<MemStateMachine> {
     async fn build_snapshot(&mut self) -> Result<Snapshot<AppTypeConfig>, io::Error> {
         let state_machine = self.state_machine.read().await;
-        let data = bincode::serialize(&state_machine.data)
-            .map_err(|e| io::Error::new(io::ErrorKind::InvalidData, e))?;
+        // The snapshot payload is the application state machine's own snapshot. The adapter's
+        // `data` map is never written by apply(), so serialising it shipped an empty snapshot
+        // and a follower installing it lost (or failed to decode) the application state.
+        let data = self.sm.snapshot();
 
         let last_applied_log = state_machine.last_applied_log;
         let last_membership = state_machine.last_membership.clone();
@@ -360,14 +362,16 @@ impl RaftStateMachine<AppTypeConfig> for Arc<MemStateMachine> {
             data: snapshot.into_inner(),
         };
 
-        let updated_state_machine_data: BTreeMap<String, String> =
-            bincode::deserialize(&new_snapshot.data)
-                .map_err(|e| io::Error::new(io::ErrorKind::InvalidData, e))?;
+        // Restore the application first: if its snapshot cannot be decoded, the adapter's
+        // applied index and membership must not advance.
+        self.sm
+            .restore(&new_snapshot.data)
+            .map_err(|e| io::Error::new(io::ErrorKind::Other, e))?;
 
         let updated_state_machine = StateMachineData {
             last_applied_log: meta.last_log_id,
             last_membership: meta.last_membership.clone(),
-            data: updated_state_machine_data.clone(),
+            data: BTreeMap::new(),
         };
 
         let mut state_machine = self.state_machine.write().await;
@@ -375,13 +379,6 @@ impl RaftStateMachine<AppTypeConfig> for Arc<MemStateMachine> {
 
         let mut current_snapshot = self.current_snapshot.write().await;
         drop(state_machine);
-
-        // Also restore into the state machine
-        let snapshot_bytes = bincode::serialize(&updated_state_machine_data)
-            .map_err(|e| io::Error::new(io::ErrorKind::InvalidData, e))?;
-        self.sm
-            .restore(&snapshot_bytes)
-            .map_err(|e| io::Error::new(io::ErrorKind::Other, e))?;
 
         *current_snapshot = Some(new_snapshot);
         Ok(())
